@@ -626,6 +626,17 @@ class Model(object):
         s = ftrim(fpad(text, n)) if self.driver != "py" else text
         return self.expect((len(s) * 1000 + sum(ord(c) for c in s),))
 
+    def op_str_count_char(self, n, _b, text):
+        if self.driver != "f":
+            raise Invalid("fortran only")
+        s = ftrim(fpad(text, n))
+        return self.expect((s.count("o") + 100 * len(s),))
+
+    def op_arr_squares(self, n, _b, _t):
+        if self.driver != "f":
+            raise Invalid("fortran only")
+        return self.expect((n, sum(i * i for i in range(n))))
+
     def op_str_ptr_in(self, n, _b, text):
         s = ftrim(fpad(text, n)) if self.driver != "py" else text
         return self.expect((len(s) * 1000 + sum(ord(c) for c in s) + 7,))
@@ -993,7 +1004,9 @@ def gen_op(rng, model, enabled, uniq):
         return [name, lengths(rng)]
     if name == "box_release":
         return [name, s]
-    if name in ("str_in", "str_ptr_in", "str_val_in"):
+    if name == "arr_squares":
+        return [name, lengths(rng)]
+    if name in ("str_in", "str_ptr_in", "str_val_in", "str_count_char"):
         text = rng.choice(TEXTS)
         return [name, rng.choice([len(text), len(text) + 3, max(0, len(text) - 2), lengths(rng)]), 0, text]
     if name == "vec_inout_alloc":
@@ -1101,7 +1114,7 @@ PY_ONLY = ["box_delete", "bad_vec_sum", "bad_arg", "nomem", "bad_arr_sum", "bad_
 NOT_PY = ["arr_pp", "arr_gref", "str_final", "copy_item", "vec_inc", "vec_str_count", "cap_delete", "cap_scope", "char_inout", "char_grow", "vec_ret_d", "vec_iota_d", "vec_ret_l", "vec_inout_alloc", "pass_item"]
 
 
-F_ONLY = ["item_assoc", "item_rebind"]
+F_ONLY = ["item_assoc", "item_rebind", "str_count_char", "arr_squares"]
 C_ONLY = ["item_release", "box_release", "hi_release", "hd_release", "cstr_ref", "cstr_lib", "cstr_owned", "cstr_in", "cstr_out", "cstr_inout"]
 
 
@@ -1119,7 +1132,7 @@ OP_NEEDS = {
     "box_release": ("Box",),
     "str_val2": ("strVal2",), "str_val3": ("strVal3",),
     "str_ref": ("strRef",), "str_val": ("strVal",), "str_owned": ("strOwned",), "str_lib": ("strLib",),
-    "str_in": ("strIn",), "str_out": ("strOut",), "str_inout": ("strInout",), "char_out": ("charOut",),
+    "str_in": ("strIn",), "str_count_char": ("strCountChar",), "arr_squares": ("arrSquares",), "str_out": ("strOut",), "str_inout": ("strInout",), "char_out": ("charOut",),
     "char_ret": ("charRet",), "char_inout": ("charInout",), "vec_sum": ("vecSum",), "vec_iota": ("vecIota",),
     "vec_inc": ("vecInc",), "vec_alloc": ("vecAlloc",), "vec_ret": ("vecRet",), "vec_str_count": ("vecStrCount",),
     "arr_new": ("arrNew",), "arr_lib": ("arrLib",), "arr_new_alloc": ("arrNewAlloc",), "cap_delete": ("arrNew",),
